@@ -47,11 +47,20 @@ pub fn main_pool(args: &[String]) -> i32 {
         let ids: Vec<std::thread::ThreadId> = pool.broadcast(|_| std::thread::current().id());
         let distinct: std::collections::BTreeSet<String> = ids.iter().map(|t| format!("{t:?}")).collect();
         let workers = distinct.len();
+        // a request made from inside work that runs on the pool (a nested call of a routine that uses the pool)
+        let nested_addr: usize = pool.install(|| {
+            let inner = cfavml_utils::get_or_init_pool();
+            let a = addr_of(&inner);
+            let ok = inner.install(|| (1..=10u64).sum::<u64>()) == 55;
+            if ok { a } else { 0 }
+        });
+        let nested_same = nested_addr == addr;
+        let nested_works = nested_addr != 0;
         let again = cfavml_utils::get_or_init_pool();
         let again_borrowed = matches!(again, cfavml_utils::MaybeBorrowedPool::Borrowed(_));
         let again_works = again.current_num_threads() == threads && again.install(|| (1..=100u64).sum::<u64>()) == work;
         let again_same = addr_of(&again) == addr && again_borrowed == borrowed;
-        (threads, borrowed, addr, work, workers, again_works, again_same)
+        (threads, borrowed, addr, work, workers, again_works && nested_works, again_same && nested_same)
     };
     let mut results = vec![];
     if from_rayon {
@@ -99,7 +108,7 @@ pub fn main_pool(args: &[String]) -> i32 {
     // let every worker finish its start handler
     std::thread::sleep(std::time::Duration::from_millis(60));
     let panics = PANICS.load(std::sync::atomic::Ordering::SeqCst);
-    let pools = if all_borrowed { 1 } else { 2 * results.len() };
+    let pools = if all_borrowed { 1 } else { 3 * results.len() };
     drop(results);
     let mut rounds_ok = true;
     for _ in 0..rounds {
